@@ -512,14 +512,14 @@ class CallMixin:
         if body_fn is None:
             body_fn = lambda x: self.truth(self.apply_fn(lam, [Val(TRef(cls), x)], st, node), node)
         if self.S.ref_consts is not None:
-            return z3.And(*[zbool(body_fn(c)) for c in self.S.ref_consts])
+            return z3.And(*[zbool(body_fn(c)) for c in [self.S.null] + list(self.S.ref_consts)])
         x = self.qvar("o", self.S.Ref)
-        self.binders.append((x, x != self.S.null))
+        self.binders.append((x, z3.BoolVal(True)))
         try:
             b = zbool(body_fn(x))
         finally:
             self.binders.pop()
-        return z3.ForAll([x], z3.Implies(x != self.S.null, b))
+        return z3.ForAll([x], b)
 
     # ------------------------------------------------------------------ builtins
     def bi_len(self, args, kwargs, st, node):
